@@ -9,9 +9,12 @@ class C02(Prop):
     title = "Session lifecycle for N UEs: establish, service request, release, deregister"
     lean_module = "Stgutg.Props.C02"
     extra_modules = ["Stgutg.Proofs.BuildersLife", "Stgutg.Props.C02Steps", "Stgutg.Props.C02Life", "Stgutg.Props.C02History",
-                     "Stgutg.Props.C02Script", "Stgutg.Proofs.EmulatorLife", "Stgutg.Props.C02Accepted"]
-    gen = ["schema", "registry", "templates", "nasie", "naslayout", "nassetters", "extract", "script", "tables"]
-    theorems = ["Stgutg.Props.C02." + t for t in [
+                     "Stgutg.Props.C02Script", "Stgutg.Proofs.EmulatorLife", "Stgutg.Props.C02Accepted", "Stgutg.Props.C02Traffic"]
+    gen = ["schema", "registry", "templates", "nasie", "naslayout", "nassetters", "extract", "script", "tables", "traffic"]
+    theorems = ["Stgutg.Props.C02Traffic." + t for t in [
+        # the traffic-mode branch of main (not runnable here: XDP) makes the calls of test mode with counts (N, N, 0, N, N)
+        "C02_traffic_structure", "C02_traffic_calls", "C02_traffic_no_trap", "test_mode_skeleton", "C02_traffic_is_test_mode",
+        "C02_traffic_dataplane"]] + ["Stgutg.Props.C02." + t for t in [
         "C02_generated_bounds", "genNumbers_eq", "C02_prerequisites", "C02_numbers_are_min", "C02_lifecycle", "C02_ids", "pduId_range", "C02_one_psi", "C02_reports", "C02_no_list_is_an_error", "C02_count_unique", "C02_protected_step_accepted", "cheapPrims_ok", "C02_accepted_witness",
         # judge steps of the nine uplink messages after registration (Props/C02Steps.lean)
         "step_setupResponse", "step_releaseResponse", "step_ueContextReleaseComplete", "step_icsResponseSvc",
@@ -85,8 +88,9 @@ class C02(Prop):
                     "conformant AMF's four downlink messages after registration (setup request with NAS accept + transfer) with "
                     "the read-hypotheses proved for it (done for registration: C01_accepted_n / Spec.AmfDl.dl), the three "
                     "re-encoding hypotheses, counts other than 1, and the interleaving of N UEs' histories in test mode (the "
-                    "per-UE fold leaves the other records untouched: HistoryEnd.others). Traffic mode needs XDP: neither "
-                    "modelled nor run.")
+                    "per-UE fold leaves the other records untouched: HistoryEnd.others). Traffic mode needs XDP and is not run; its "
+                    "branch of main is tied structurally (gen traffic + C02_traffic_is_test_mode: the calls of test mode with counts "
+                    "(N, N, 0, N, N), no ueList[i] beyond the list, EstablishPDU's triple handed to the data plane in AddClient's order).")
     level_text = ("Lean theorems for all UE / repetition counts and configurations about an executable model of test mode and the "
                   "four procedures (arithmetic of the clamps, induction over the UE list, C06/C12/C13/C16 composed against the "
                   "reference AMF; the judge accepts the whole uplink script of a UE for every history: C02_script_accepted); model tied to the code by whole-conversation differential runs incl. EstablishPDU's return "
